@@ -285,6 +285,10 @@ fn parse_v_model_directive(
                             modifiers = Some(parse_modifiers(elems));
                         }
                     }
+                    if modifiers.is_none() {
+                        // `[value, arg]` has no modifier list: the `_suffix` modifiers apply
+                        modifiers = Some(splitted_attr_name.map(Atom::from).collect());
+                    }
                 }
             }
         } else {
